@@ -380,7 +380,13 @@ pub fn run(args: &Args, _scratch: &Path) -> ShardReport {
         });
     }
     rt.block_on(async {
-        for _ in 0..runs {
+        let budget_s = args.u64("budget_s", 600);
+        let t0 = std::time::Instant::now();
+        for run_no in 0..runs {
+            if run_no % 64 == 0 && t0.elapsed().as_secs() >= budget_s {
+                rep.notes.push(format!("time budget reached after {run_no} runs"));
+                break;
+            }
             let s = seeder.next();
             let mut r = Rng::new(s);
             let sh = gen_shape(&mut r);
